@@ -272,6 +272,13 @@ def ceiling_clamp(cx, iid):
     # the burst allowance is rate x RTT estimate: the estimate is the 0.9 / 0.1 filter of the samples
     from props.C14 import rtt_filter_shape
     rtt_filter_shape(cx, "C13.l")
+    # the bucket is refilled from SendRateComp::send_rate(): the accessor must report the clamped field, not a re-floored value
+    with cx.instance("C13.m", "E2 IDENTITY", "SendRateComp::send_rate() returns the stored (clamped) rate unchanged", floor=1) as inst:
+        ab = cx.R.body("SendRateComp::send_rate")
+        ae = show(ab.local_expr(0))
+        inst.site(ab, None, "send_rate() = " + ae[:120])
+        if not re.fullmatch(r"cast<f64>\(arg1\.send_rate\)", ae):
+            inst.violation(ab.path, "rate accessor", "send_rate() returns `%s`; expected the stored rate (every write of the field is clamped to the ceiling; a value computed here is not)" % ae[:200])
 
 
 SELFTEST = [
